@@ -188,4 +188,310 @@ theorem txHeight_static (t h : Nat) (hle : h ≤ t) (hW : t < 184467440737095516
     (t + 18446744073709551616 - (t - h + 1) + 1) % 18446744073709551616 = h := by
   omega
 
+
+/-! ## end to end: an assembled proof verifies -/
+
+/-- A well-formed chain: 80-byte headers carrying the Merkle root of their block's transaction
+    ids and the hash of the previous header; 32-byte ids; the first id is the coinbase's. -/
+structure ValidChain (chain : List Block) : Prop where
+  header_len : ∀ (i : Nat) (b : Block), chain[i]? = some b → b.header.length = 80
+  root : ∀ (i : Nat) (b : Block), chain[i]? = some b → headerRoot b.header = merkleRoot H b.leaves
+  leaf_len : ∀ (i : Nat) (b : Block), chain[i]? = some b → ∀ l ∈ b.leaves, l.length = 32
+  coinbase : ∀ (i : Nat) (b : Block), chain[i]? = some b → ∃ rest, b.leaves = H b.coinbaseRaw :: rest
+  link : ∀ (i : Nat) (a b : Block), chain[i]? = some a → chain[i + 1]? = some b →
+    headerPrev b.header = H a.header
+
+theorem indexOf_spec : ∀ (l : List Bytes) (x : Bytes) (p : Nat), indexOf l x = some p →
+    p < l.length ∧ l.getD p [] = x
+  | [], x, p, h => by simp [indexOf] at h
+  | y :: ys, x, p, h => by
+    unfold indexOf at h
+    by_cases hy : y = x
+    · rw [if_pos hy] at h
+      cases h
+      simp [hy]
+    · rw [if_neg hy] at h
+      cases hi : indexOf ys x with
+      | none => simp [hi] at h
+      | some q =>
+        simp [hi] at h
+        subst h
+        obtain ⟨a, b⟩ := indexOf_spec ys x q hi
+        exact ⟨by simp only [List.length_cons]; omega, by simpa using b⟩
+
+theorem flatten_length_const (n : Nat) : ∀ (xs : List Bytes), (∀ x ∈ xs, x.length = n) →
+    xs.flatten.length = n * xs.length
+  | [], _ => by simp
+  | x :: xs, h => by
+    have hx : x.length = n := h x (by simp)
+    have ih := flatten_length_const n xs (fun y hy => h y (by simp [hy]))
+    simp only [List.flatten_cons, List.length_append, List.length_cons, hx, ih, Nat.mul_succ]
+    omega
+
+/-- **header-chain linkage**: the headers `getHeadersChain` collects (whatever the tips of the
+    individual queries were) are the 80-byte headers of consecutive blocks of the one chain,
+    each linked to its predecessor by hash, starting with the header at `height`. -/
+theorem getHeaders_spec (chain : List Block) (tips : Nat → Nat) (v : ValidChain H chain) :
+    ∀ (n q height : Nat) (hs : List Bytes), getHeaders chain tips q height n = some hs →
+      hs.length = n ∧ (∀ x ∈ hs, x.length = 80) ∧ linked H hs = true ∧
+      (0 < n → hs.head? = (chain[height]?).map (·.header))
+  | 0, q, height, hs, h => by
+    simp only [getHeaders, Option.some.injEq] at h
+    subst h
+    simp [linked]
+  | n + 1, q, height, hs, h => by
+    unfold getHeaders at h
+    cases hh : headerAt chain (tips q) height with
+    | none => simp [hh] at h
+    | some hd =>
+      rw [hh] at h
+      simp only [] at h
+      cases hr : getHeaders chain tips (q + 1) (height + 1) n with
+      | none => simp [hr] at h
+      | some rest =>
+        rw [hr] at h
+        simp only [Option.some.injEq] at h
+        subst h
+        obtain ⟨rl, r80, rlink, rhead⟩ := getHeaders_spec chain tips v n (q + 1) (height + 1) rest hr
+        -- the header at `height`
+        have hb : ∃ b, chain[height]? = some b ∧ hd = b.header := by
+          unfold headerAt at hh
+          split at hh
+          · cases hc : chain[height]? with
+            | none => simp [hc] at hh
+            | some b => exact ⟨b, rfl, by simpa [hc] using hh.symm⟩
+          · cases hh
+        obtain ⟨b, hbc, hbe⟩ := hb
+        refine ⟨by simp [rl], ?_, ?_, ?_⟩
+        · intro x hx
+          simp only [List.mem_cons] at hx
+          rcases hx with rfl | hx
+          · rw [hbe]; exact v.header_len height b hbc
+          · exact r80 x hx
+        · cases rest with
+          | nil => simp [linked]
+          | cons r rs =>
+            have hn : 0 < n := by simp at rl; omega
+            have hh' := rhead hn
+            simp only [List.head?_cons] at hh'
+            cases hc : chain[height + 1]? with
+            | none => simp [hc] at hh'
+            | some b' =>
+              simp only [hc, Option.map_some, Option.some.injEq] at hh'
+              have := v.link height b b' hbc hc
+              simp only [linked, Bool.and_eq_true, decide_eq_true_eq]
+              exact ⟨by rw [hh', hbe]; exact this, rlink⟩
+        · intro _
+          simp [hbc, hbe]
+
+theorem merkleQuery_some (chain : List Block) (tip : Nat) (x : Bytes) (h : Nat)
+    (nodes : List Bytes) (pos : Nat) (hq : merkleQuery H chain tip x h = some (nodes, pos)) :
+    ∃ b, chain[h]? = some b ∧ indexOf b.leaves x = some pos ∧
+      nodes = (branch H b.leaves pos).map List.reverse := by
+  unfold merkleQuery at hq
+  split at hq
+  · cases hc : chain[h]? with
+    | none => simp [hc] at hq
+    | some b =>
+      rw [hc] at hq
+      simp only [] at hq
+      cases hi : indexOf b.leaves x with
+      | none => simp [hi] at hq
+      | some p =>
+        rw [hi] at hq
+        simp only [Option.some.injEq, Prod.mk.injEq] at hq
+        obtain ⟨h1, h2⟩ := hq
+        subst h2
+        exact ⟨b, rfl, hi, h1.symm⟩
+  · cases hq
+
+theorem pairUp_node_len (hlen : ∀ x, (H x).length = 32) : ∀ (l : List Bytes), ∀ x ∈ pairUp H l, x.length = 32
+  | [], x, hx => by simp [pairUp] at hx
+  | [a], x, hx => by simp [pairUp] at hx; rw [hx]; exact hlen _
+  | a :: b :: rest, x, hx => by
+    simp only [pairUp, List.mem_cons] at hx
+    rcases hx with rfl | hx
+    · exact hlen _
+    · exact pairUp_node_len hlen rest x hx
+
+theorem getD_lt (l : List Bytes) (i : Nat) (d : Bytes) (h : i < l.length) : l.getD i d = l[i] := by
+  simp [List.getD_eq_getElem?_getD, h]
+
+theorem getD_mem (l : List Bytes) (i : Nat) (d : Bytes) : l.getD i d = d ∨ l.getD i d ∈ l := by
+  by_cases h : i < l.length
+  · right
+    rw [getD_lt l i d h]
+    exact List.getElem_mem h
+  · left
+    simp [List.getD_eq_getElem?_getD, List.getElem?_eq_none (Nat.le_of_not_lt h)]
+
+theorem sibling_len (l : List Bytes) (pos : Nat) (hl : ∀ x ∈ l, x.length = 32) (hp : pos < l.length) :
+    (sibling l pos).length = 32 := by
+  unfold sibling
+  have hd : (l.getD pos []).length = 32 := by
+    rw [getD_lt l pos [] hp]; exact hl _ (List.getElem_mem hp)
+  rcases getD_mem l (if pos % 2 = 0 then pos + 1 else pos - 1) (l.getD pos []) with h | h
+  · rw [h]; exact hd
+  · exact hl _ h
+
+/-- every node of a branch is 32 bytes long -/
+theorem branchF_node_len (hlen : ∀ x, (H x).length = 32) : ∀ (f : Nat) (l : List Bytes) (pos : Nat),
+    (∀ x ∈ l, x.length = 32) → pos < l.length → ∀ n ∈ branchF H f l pos, n.length = 32
+  | 0, _, _, _, _, n, hn => by simp [branchF] at hn
+  | f + 1, l, pos, hl, hp, n, hn => by
+    unfold branchF at hn
+    by_cases h1 : l.length ≤ 1
+    · simp [h1] at hn
+    · rw [if_neg h1] at hn
+      simp only [List.mem_cons] at hn
+      rcases hn with rfl | hn
+      · exact sibling_len l pos hl hp
+      · exact branchF_node_len hlen f (pairUp H l) (pos / 2) (pairUp_node_len H hlen l)
+          (by rw [pairUp_length]; omega) n hn
+
+/-- **equal path lengths**: the branch length depends on the block only, not on the position -/
+theorem branchF_length_indep : ∀ (f : Nat) (l : List Bytes) (p q : Nat),
+    (branchF H f l p).length = (branchF H f l q).length
+  | 0, _, _, _ => rfl
+  | f + 1, l, p, q => by
+    unfold branchF
+    by_cases h1 : l.length ≤ 1
+    · simp [h1]
+    · simp only [if_neg h1, List.length_cons]
+      rw [branchF_length_indep f (pairUp H l) (p / 2) (q / 2)]
+
+/-- **assemble_static_verifies**: whenever the latest-height query sees the same tip as the
+    confirmations query, a returned proof is accepted by the independent verifier — for every
+    hash function, every valid chain, every transaction position, every required count ≥ 1, and
+    *whatever* the tips of all later queries are (late growth included: nothing is assumed about
+    `tips k` for `k ≥ 3`). -/
+theorem assemble_static_verifies (hlen : ∀ x, (H x).length = 32) (hHS : ∀ x, H x = S (S x))
+    (chain : List Block) (v : ValidChain H chain) (tips : Nat → Nat) (txid : Bytes) (req : Nat)
+    (hreq : 1 ≤ req) (hstat : tips 2 = tips 0) (hW : tips 0 < 18446744073709551616)
+    (p : Proof) (hp : assemble H S chain tips txid req = .ok p) :
+    verify H S txid req p = true := by
+  unfold assemble at hp
+  cases hf : findHeight chain (tips 0) txid with
+  | none => simp [hf] at hp
+  | some h =>
+    obtain ⟨_, hle, _, _, _⟩ := findHeightFrom_spec chain (tips 0) txid 0 h hf
+    rw [hf] at hp
+    simp only [] at hp
+    split at hp
+    · cases hp
+    · rw [hstat, txHeight_static (tips 0) h hle hW] at hp
+      cases hg : getHeaders chain tips 3 h req with
+      | none => simp [hg] at hp
+      | some hs =>
+        rw [hg] at hp
+        simp only [] at hp
+        obtain ⟨hsl, hs80, hslink, hshead⟩ := getHeaders_spec H chain tips v req 3 h hs hg
+        cases hm : merkleQuery H chain (tips (3 + req)) txid h with
+        | none => simp [hm] at hp
+        | some r =>
+          obtain ⟨nodes, pos⟩ := r
+          rw [hm] at hp
+          simp only [] at hp
+          obtain ⟨b, hb, hidx, hnodes⟩ := merkleQuery_some H chain _ txid h nodes pos hm
+          cases hc : coinbaseQuery chain (tips (3 + req + 1)) h with
+          | none => simp [hc] at hp
+          | some cb =>
+            rw [hc] at hp
+            simp only [] at hp
+            cases hm2 : merkleQuery H chain (tips (3 + req + 3)) cb h with
+            | none => simp [hm2] at hp
+            | some r2 =>
+              obtain ⟨cnodes, cpos⟩ := r2
+              rw [hm2] at hp
+              simp only [Except.ok.injEq] at hp
+              obtain ⟨b2, hb2, hidx2, hcnodes⟩ := merkleQuery_some H chain _ cb h cnodes cpos hm2
+              have hbb : b2 = b := by rw [hb] at hb2; cases hb2; rfl
+              subst hbb
+              -- the coinbase id is the first leaf
+              obtain ⟨rest, hleaves⟩ := v.coinbase h b2 hb
+              have hcb : cb = H b2.coinbaseRaw := by
+                unfold coinbaseQuery at hc
+                split at hc
+                · simp [hb, hleaves] at hc; exact hc.symm
+                · cases hc
+              have hcpos : cpos = 0 := by
+                rw [hleaves, hcb] at hidx2
+                simp [indexOf] at hidx2
+                exact hidx2.symm
+              subst hcpos
+              obtain ⟨hpos, hget⟩ := indexOf_spec _ _ _ hidx
+              have hl32 := v.leaf_len h b2 hb
+              have hlpos : 0 < b2.leaves.length := by rw [hleaves]; simp
+              have hbr32 : ∀ n ∈ branch H b2.leaves pos, n.length = 32 :=
+                branchF_node_len H hlen _ _ _ hl32 hpos
+              have hcbr32 : ∀ n ∈ branch H b2.leaves 0, n.length = 32 :=
+                branchF_node_len H hlen _ _ _ hl32 hlpos
+              have hhead : hs.getD 0 [] = b2.header := by
+                have := hshead (by omega)
+                rw [hb] at this
+                cases hs with
+                | nil => simp at this
+                | cons x xs => simp at this; simp [this]
+              have hroot := v.root h b2 hb
+              have hb1 := branch_verifies H b2.leaves pos hpos
+              have hb0 := branch_verifies H b2.leaves 0 hlpos
+              have hget0 : b2.leaves.getD 0 [] = H b2.coinbaseRaw := by rw [hleaves]; simp
+              subst hp
+              unfold verify
+              simp only [hnodes, hcnodes, createMerkleProof_layout, hb,
+                chunks_flatten 80 (by decide) hs hs80, chunks_flatten 32 (by decide) _ hbr32,
+                chunks_flatten 32 (by decide) _ hcbr32, hhead, hroot, Option.map_some,
+                Option.getD_some, ← hHS, Bool.and_eq_true, decide_eq_true_eq]
+              refine ⟨⟨⟨⟨⟨⟨hreq, ?_⟩, hslink⟩, ?_⟩, ?_⟩, ?_⟩, ?_⟩
+              · rw [flatten_length_const 80 hs hs80, hsl]
+              · rw [flatten_length_const 32 _ hbr32]; omega
+              · rw [← hget]; exact hb1
+              · rw [flatten_length_const 32 _ hcbr32, flatten_length_const 32 _ hbr32]
+                unfold branch
+                rw [branchF_length_indep H _ _ 0 pos]
+              · rw [← hget0]; exact hb0
+
+/-- **assemble_growth_safe** — C31: on every valid chain, for every append-only growth schedule
+    (`tips 0 ≤ tips 2`; later tips arbitrary), every transaction occurring in one block only,
+    every required count ≥ 1 and every hash function: assembly either fails or returns a proof
+    the independent verifier accepts. -/
+theorem assemble_growth_safe (hlen : ∀ x, (H x).length = 32) (hHS : ∀ x, H x = S (S x))
+    (chain : List Block) (v : ValidChain H chain) (tips : Nat → Nat) (txid : Bytes) (req : Nat)
+    (hu : UniqueTx chain txid) (hreq : 1 ≤ req) (mono : tips 0 ≤ tips 2)
+    (hW : tips 2 < 18446744073709551616) :
+    match assemble H S chain tips txid req with
+    | .error _ => True
+    | .ok p => verify H S txid req p = true := by
+  by_cases hst : tips 2 = tips 0
+  · cases hr : assemble H S chain tips txid req with
+    | error e => trivial
+    | ok p =>
+      exact assemble_static_verifies H S hlen hHS chain v tips txid req hreq hst (by omega) p hr
+  · obtain ⟨e, he⟩ := assemble_growth_early_fails H S chain tips txid req hu mono hst hW
+    rw [he]
+    trivial
+
+
+/-! Non-vacuity: the hypotheses of `assemble_growth_safe` are satisfiable and assembly succeeds. -/
+section
+private def H0 : Bytes → Bytes := fun _ => zeros32
+private def chain0 : List Block := [⟨List.replicate 80 0, [zeros32], []⟩, ⟨List.replicate 80 0, [zeros32], []⟩]
+
+example : (assemble H0 H0 chain0 (fun _ => 1) zeros32 2).toOption.isSome = true := by decide
+
+example : ValidChain H0 chain0 := by
+  have hc : ∀ (i : Nat) (b : Block), chain0[i]? = some b → b = ⟨List.replicate 80 0, [zeros32], []⟩ := by
+    intro i b h
+    match i, h with
+    | 0, h => simp [chain0] at h; exact h.symm
+    | 1, h => simp [chain0] at h; exact h.symm
+    | i + 2, h => simp [chain0] at h
+  refine ⟨?_, ?_, ?_, ?_, ?_⟩
+  · intro i b h; rw [hc i b h]; decide
+  · intro i b h; rw [hc i b h]; decide
+  · intro i b h; rw [hc i b h]; decide
+  · intro i b h; rw [hc i b h]; exact ⟨[], rfl⟩
+  · intro i a b h1 h2; rw [hc _ b h2, hc _ a h1]; decide
+end
+
 end KeepVerif.C31
